@@ -3,58 +3,10 @@ C20 across two heaps, layer 3: related values give equal cells, corresponding st
 sections — given anchor maps that answer alike for "the same key".
 -/
 import CassisModel.Proofs.ComparableIsoAnchors
+import CassisModel.Proofs.ComparableFuel
 
 namespace Cassis.Comparable
 open Cassis.TS Cassis.Traverse
-
-/-! ### values that are not references -/
-
-theorem renderVal_plain (K : Consts) (hp : Heap) (byId : List (Option Int × String)) (f : Nat) {v : Val} {c : Cell}
-    (h : plainCell v = some c) : renderVal K hp byId f v = .ok c := by
-  cases v <;> simp only [plainCell, Option.some.injEq, reduceCtorEq] at h <;> subst h <;> cases f <;> rfl
-
-theorem renderVal_sameCell (K : Consts) (hp hp' : Heap) (byId byId' : List (Option Int × String)) (f f' : Nat)
-    {v v' : Val} (h : SameCell v v') : renderVal K hp' byId' f' v' = renderVal K hp byId f v := by
-  obtain ⟨c, h1, h2⟩ := h
-  rw [renderVal_plain K hp byId f h1, renderVal_plain K hp' byId' f' h2]
-
-theorem renderVal_emptyList (K : Consts) (hp : Heap) (byId : List (Option Int × String)) (f : Nat) {v : Val}
-    (h : EmptyList v) : renderVal K hp byId (f + 1) v = .ok (.list []) := by
-  rcases h with h | h | h | h | h <;> subst h <;> rfl
-
-/-- a reference to an array object whose `elements` are not `None` is rendered as the elements are -/
-theorem renderVal_ref_arr (K : Consts) (hp : Heap) (byId : List (Option Int × String)) (f : Nat) {a : Nat} {v : Val}
-    (h1 : isArrayFs K hp a = true) (h2 : slot hp a "elements" = some v) (h3 : v ≠ .none) :
-    renderVal K hp byId (f + 1) (.ref a) = renderVal K hp byId f v := by
-  cases v <;> first | exact absurd rfl h3 | simp only [renderVal, h1, if_true, h2]
-
-theorem renderVal_ref_arr_none (K : Consts) (hp : Heap) (byId : List (Option Int × String)) (f : Nat) {a : Nat}
-    (h1 : isArrayFs K hp a = true) (h2 : slot hp a "elements" = some .none) :
-    renderVal K hp byId (f + 1) (.ref a) = .ok .none := by
-  simp only [renderVal, h1, if_true, h2]
-
-theorem renderVal_ref_arr_noslot (K : Consts) (hp : Heap) (byId : List (Option Int × String)) (f : Nat) {a : Nat}
-    (h1 : isArrayFs K hp a = true) (h2 : slot hp a "elements" = none) :
-    renderVal K hp byId (f + 1) (.ref a) = .error .attributeError := by
-  simp only [renderVal, h1, if_true, h2]
-
-theorem renderVal_ref_fs (K : Consts) (hp : Heap) (byId : List (Option Int × String)) (f : Nat) {a : Nat}
-    (h1 : isArrayFs K hp a = false) :
-    renderVal K hp byId (f + 1) (.ref a) =
-      (match getById byId (xidOf hp a) with | some s => .ok (.str s) | none => .ok .none) := by
-  simp only [renderVal, h1, Bool.false_eq_true, if_false]
-  rfl
-
-/-- the element loop of an `FSArray` -/
-def elemCell (K : Consts) (hp : Heap) (byId : List (Option Int × String)) (f : Nat) (r : Option Nat) : Except Err Cell :=
-  match r with
-  | none => .ok Cell.null
-  | some a => renderVal K hp byId f (.ref a)
-
-theorem renderVal_refs (K : Consts) (hp : Heap) (byId : List (Option Int × String)) (f : Nat) (l : List (Option Nat)) :
-    renderVal K hp byId (f + 1) (.refs l) = (l.mapM (elemCell K hp byId f)).map Cell.list := by
-  simp only [renderVal]
-  rfl
 
 theorem mapM_elemCell_rel (K : Consts) (hp hp' : Heap) (byId byId' : List (Option Int × String)) (f f' : Nat)
     (R : Nat → Nat → Prop)
@@ -113,19 +65,18 @@ theorem renderVal_rel (K : Consts) (hp hp' : Heap) (addrs : List Nat) (φ : Nat 
 section
 variable {K : Consts} {cass cass' : List Cas} {hp hp' : Heap} {indexed indexed' addrs addrs' : List Nat} {φ : Nat → Nat}
 
-theorem isoDepth_le_left (hp hp' : Heap) : isoDepth hp hp' ≤ hp.length + 1 := by
-  unfold isoDepth; omega
-
-theorem isoDepth_le_right (hp hp' : Heap) : isoDepth hp hp' ≤ hp'.length + 1 := by
-  unfold isoDepth; omega
-
 theorem Iso.renderSlot (h : Iso K cass cass' hp hp' indexed indexed' addrs addrs' φ)
     {byId byId' : List (Option Int × String)} (hA : AnchRel hp hp' addrs φ byId byId') {a : Nat} (ha : a ∈ addrs)
     {n : String} (hn : n ≠ "sofa") :
-    renderVal K hp' byId' (hp'.length + 1) ((slot hp' (φ a) n).getD .none)
-      = renderVal K hp byId (hp.length + 1) ((slot hp a n).getD .none) :=
-  renderVal_rel K hp hp' addrs φ byId byId' hA _ _ _ (h.slots a ha n hn) _ _
-    (isoDepth_le_left hp hp') (isoDepth_le_right hp hp')
+    renderVal K hp' byId' (2 * hp'.length + 2) ((slot hp' (φ a) n).getD .none)
+      = renderVal K hp byId (2 * hp.length + 2) ((slot hp a n).getD .none) := by
+  obtain ⟨d, hd⟩ := h.slots a ha n hn
+  -- a budget that covers the depth of the relation and both budgets of the model; the latter are saturated
+  have h1 := renderVal_rel K hp hp' addrs φ byId byId' hA d _ _ hd
+    (d + (2 * hp.length + 2) + (2 * hp'.length + 2)) (d + (2 * hp.length + 2) + (2 * hp'.length + 2))
+    (by omega) (by omega)
+  rw [renderVal_saturated K hp' byId' _ (by omega), renderVal_saturated K hp byId _ (by omega)] at h1
+  exact h1
 
 theorem Iso.renderCols (h : Iso K cass cass' hp hp' indexed indexed' addrs addrs' φ)
     {byId byId' : List (Option Int × String)} (hA : AnchRel hp hp' addrs φ byId byId') {a : Nat} (ha : a ∈ addrs) :
